@@ -453,7 +453,7 @@ func init() {
 					}
 					totals = append(totals, rng.Intn(3)*b+[]int{-1, 0, 1, 7, b / 2}[rng.Intn(5)]+1)
 				}
-				emitMsgs("history", ps, rng.Intn(3), rng.Intn(256), totals, 15, ps2)
+				emitMsgs("history", ps, []int{0, 1, 2, 255, 256, 300, 4097, 65535}[rng.Intn(8)], rng.Intn(256), totals, 15, ps2)
 			}
 			for i := 0; i < nr; i++ {
 				ps := 256 + rng.Intn(3000)
